@@ -701,6 +701,10 @@ func main() {
 		round2(o)
 		return
 	}
+	if strings.HasPrefix(o.Extra, "round3") {
+		round3(o)
+		return
+	}
 	if o.Replay != "" {
 		replay(o)
 		return
@@ -825,6 +829,17 @@ func replay(o Opts) {
 			Die("replay file has no Baum-Welch case: %v", err)
 		}
 		replay2(o, rp2.Case)
+		return
+	}
+	switch rp.Case.Kind {
+	case "vnormal", "sid", "siid", "negbin", "logreg", "emnormal":
+		var rp3 struct {
+			Case *Case3 `json:"case"`
+		}
+		if err := json.Unmarshal(b, &rp3); err != nil || rp3.Case == nil {
+			Die("replay file has no round-3 case: %v", err)
+		}
+		replay3(o, rp3.Case)
 		return
 	}
 	execute(rp.Case)
